@@ -8,6 +8,9 @@
   value, so the statement lives in the pointer-level model Model/Heap.lean (frame and refinement
   theorems at the end of this file); on the Go side every case compares a deep snapshot before/after.
 -/
+import BtcVerif.Props.GuardPins.P_bhash
+import BtcVerif.Props.GuardPins.P_script
+import BtcVerif.Props.GuardPins.P_tx
 import BtcVerif.Proofs.HeapSigHash
 import BtcVerif.Proofs.SigHash
 import BtcVerif.Gen.Facts
